@@ -225,6 +225,27 @@ def lean_closure(modules):
     return sorted(files)
 
 
+def reference_oracle(cfg, workdir):
+    """path of an oracle executable built from harness/expect/Facts.golden.lean, or None when the regenerated facts
+    are the golden ones (then the oracle at hand is the reference) or it cannot be built"""
+    gold = os.path.join(HARNESS, "expect", "Facts.golden.lean")
+    cur = os.path.join(LEAN, "Gotlcp", "Generated", "Facts.lean")
+    try:
+        if open(gold, "rb").read() == open(cur, "rb").read():
+            return None
+    except OSError:
+        return None
+    dst = os.path.join(workdir, "lean_ref")
+    rc, out, _ = run(["rsync", "-a", "--delete", "--exclude", ".audit", LEAN + "/", dst + "/"], timeout=600)
+    if rc != 0:
+        return None
+    shutil.copy2(gold, os.path.join(dst, "Gotlcp", "Generated", "Facts.lean"))
+    rc, out, secs = run(["lake", "build", cfg["oracle"]], cwd=dst, timeout=1800)
+    log("[%s] reference oracle (golden facts): rc=%d %.1fs" % (cfg["property"], rc, secs))
+    exe = os.path.join(dst, ".lake", "build", "bin", cfg["oracle"])
+    return exe if rc == 0 and os.path.exists(exe) else None
+
+
 def build_driver(name):
     exe = os.path.join(BUILD, name)
     rc, out, _ = run(["go", "build", "-tags", "verif", "-o", exe, "./cmd/" + name], cwd=HARNESS, env=GOENV, timeout=1200)
@@ -580,9 +601,40 @@ def main(argv):
                 break
     searched = st.n - n_main
 
+    # ----- confirmation: a spec failure is reported as a concrete violation only if the case fails again when it
+    # is re-executed ALONE (some observations are watchdog- or deadline-based: a deadlock verdict taken on a
+    # loaded machine must reproduce; a deterministic failure always does)
+    unconfirmed = {}
+    judge_exe = oracle_exe
+    if st.unknown and can_run:
+        # the spec verdict must not depend on facts the extractor could no longer find (a rename makes constants
+        # default): when the regenerated facts differ from the golden ones, the failing cases are re-judged by a
+        # REFERENCE oracle built from the golden facts (the spec as instantiated for the unchanged tree)
+        ref = reference_oracle(cfg, workdir)
+        if ref:
+            judge_exe = ref
+        for tag, (c, ans, why, cnt) in sorted(st.unknown.items()):
+            reproduced = False
+            for attempt in range(2):
+                tmp = os.path.join(workdir, "confirm-%s-%d.txt" % (re.sub(r"[^A-Za-z0-9_-]", "_", tag or "fail"), attempt))
+                with open(tmp, "w") as f:
+                    f.write(c + "\n")
+                got = []
+                res = run_phase(cfg, exe, judge_exe, {"name": ""}, tier, seed, 1, workdir, replay=tmp,
+                                on_line=lambda cc, aa: got.append(aa))
+                if any(("spec=FAIL" in a_) for a_ in got) or (not got and res["errors"]):
+                    reproduced = True
+                    break
+            if not reproduced:
+                unconfirmed[tag] = (c, ans, why, cnt)
+        for tag in unconfirmed:
+            del st.unknown[tag]
+
     # ----- verdict
     violations = 0
     out_lines = []
+    for tag, (c, ans, why, cnt) in sorted(unconfirmed.items()):
+        out_lines.append("UNCONFIRMED: property=%s a spec failure (tag %s: %s) did not reproduce when the case was re-executed alone; not reported as a violation" % (pid, tag, why))
     known_hit = st.known_hit
     for kid, (k, c, cnt) in sorted(known_hit.items()):
         out_lines.append("KNOWN-FINDING: property=%s %s [%s]" % (pid, k.get("what", ""), kid))
@@ -630,6 +682,7 @@ def main(argv):
             "phases": phase_stats, "notes": st.notes,
             "changed_function_hashes": changed, "moved_facts": moved, "budget_scale": scale,
             "broken": [{"kind": p[0], "site": p[1]} for p in problems],
+            "unconfirmed_spec_failures": [{"tag": t, "case": v[0][:400], "reason": v[2]} for t, v in sorted(unconfirmed.items())],
         },
         "assumptions": cfg.get("assumptions", []),
         "wall_s": round(time.time() - t0, 2),
